@@ -444,6 +444,7 @@ func (c12) Exec(plan any, c *Ctx) *Violation {
 	lastMW := 0
 	abandon := false
 	for si, st := range p.Steps {
+		clockTick("a step")
 		x := mws[st.MW%len(mws)]
 		step := fmt.Sprintf("#%d %s mw=%d", si, st.Kind, st.MW%len(mws))
 		// the value written by this step's scribbler: from the fixed list, or a
